@@ -446,7 +446,7 @@ example :
 /-- single-shot pin next to a racing neighbour: the neighbour's transition between the pin's load
 and its CAS makes `pin_object` return `false` with nobody having pinned — accepted by the per-object
 verdict only because the projection reports the neighbour's CAS as interference. -/
-example :
+theorem pin_fails_spuriously_next_to_racing_neighbour :
     let s := exec pinLog (init pinLog 0 1 0)
       [.thread .F 0, .thread .G 0, .thread .G 0, .thread .G 0, .thread .F 0]
     s.pc .F 0 = .ret false ∧ s.pc .G 0 = .ret true ∧ s.sh.byte = ⟨0, 0, 0⟩ ∧
@@ -477,7 +477,7 @@ def staleExec (P : Fld → Proto) (s : State) : List (Fld × Nat) → State
 then `F`'s CAS "succeeds" and stores `⟨1,0,0⟩` — both threads returned `true` but object `G`'s mark
 is gone.  (In the byte model the same schedule makes `F`'s CAS fail and retry — see
 `spurious_failure_then_retry`.) -/
-example :
+theorem stale_write_undoes_neighbour :
     let s := staleExec markBoth (init markBoth 0 0 0)
       [(.F, 0), (.F, 0), (.G, 0), (.G, 0), (.G, 0), (.F, 0)]
     s.pc .F 0 = .ret true ∧ s.pc .G 0 = .ret true ∧ s.sh.byte = ⟨1, 0, 0⟩ ∧ s.sh.byte.get .G = 0 := by
